@@ -115,15 +115,52 @@ Proof. reflexivity. Qed.
 Lemma tokc_syn_gone c w m : tokc c (syn_gone w m) = tokc c w.
 Proof. unfold syn_gone. destruct (m_body m); reflexivity. Qed.
 
+Lemma syn_cid_set_parked m b : syn_cid (set_parked m b) = syn_cid m.
+Proof. reflexivity. Qed.
+
+Lemma syns_map_parked b l : syns (map (fun m => set_parked m b) l) = syns l.
+Proof. induction l as [|m l IH]; [reflexivity|]. cbn [map]. rewrite !syns_cons, IH. reflexivity. Qed.
+
+Lemma syns_unpark_at ks : forall l i, syns (unpark_at i ks l) = syns l.
+Proof.
+  induction l as [|m l IH]; intros i; [reflexivity|]. cbn [unpark_at]. rewrite !syns_cons, IH.
+  destruct (existsb _ ks); reflexivity.
+Qed.
+
+Lemma filter_split_cnt c (p : wmsg -> bool) l :
+  cnt c (syns (filter p l)) + cnt c (syns (filter (fun x => negb (p x)) l)) = cnt c (syns l).
+Proof.
+  induction l as [|x l IH]; cbn [filter]; [rewrite syns_nil; reflexivity|].
+  destruct (p x); cbn [negb]; rewrite ?syns_cons, ?cnt_app; lia.
+Qed.
+
+Lemma two_filters_cnt c (fa fb : wmsg -> bool) m :
+  cnt c (syns (filter fa m)) + cnt c (syns (filter (fun x => negb (fa x) && fb x) m)) <= cnt c (syns m).
+Proof.
+  induction m as [|x m IH]; cbn [filter]; [rewrite syns_nil; change (cnt c []) with 0; lia|].
+  destruct (fa x); cbn [negb andb]; [|destruct (fb x)]; rewrite ?syns_cons, ?cnt_app; lia.
+Qed.
+
+Lemma flow_link_le c w l : cnt c (link_toks (flow_link w l)) <= cnt c (link_toks l).
+Proof.
+  unfold flow_link, link_toks. cbn [l_sent l_rdy_a l_rdy_b set_rdys set_sent]. rewrite !syns_app, !cnt_app.
+  pose proof (filter_split_cnt c m_parked (l_sent l)) as H1.
+  pose proof (two_filters_cnt c (to_host w (l_a l)) (to_host w (l_b l)) (filter (fun x => negb (m_parked x)) (l_sent l))) as H2.
+  lia.
+Qed.
+
 Lemma tokc_link_send c w s d m : tokc c (link_send w s d m) <= tokc c w + cnt c (syn_cid m).
 Proof.
   unfold link_send. destruct (find _ _); [|rewrite tokc_syn_gone; lia].
   destruct (cut_from _ _); [rewrite tokc_syn_gone; lia|].
   rewrite !tokc_eq. cbn [w_links w_hosts set_links].
   pose proof (sumn_upd_first_le (fun l => cnt c (link_toks l)) (fun l => on_link l s d)
-                (fun l => set_sent l (l_sent l ++ [m])) (w_links w) (cnt c (syn_cid m))) as H.
-  assert (Hx : forall x, cnt c (link_toks (set_sent x (l_sent x ++ [m]))) <= cnt c (link_toks x) + cnt c (syn_cid m)).
-  { intros x. unfold link_toks. cbn [l_sent l_rdy_a l_rdy_b set_sent]. rewrite syns_app, syns_one, !cnt_app. lia. }
+                (fun l => flow_link w (set_sent l (l_sent l ++ [set_parked m (held_from l s)]))) (w_links w)
+                (cnt c (syn_cid m))) as H.
+  assert (Hx : forall x, cnt c (link_toks (flow_link w (set_sent x (l_sent x ++ [set_parked m (held_from x s)])))) <=
+                         cnt c (link_toks x) + cnt c (syn_cid m)).
+  { intros x. eapply Nat.le_trans; [apply flow_link_le|]. unfold link_toks. cbn [l_sent l_rdy_a l_rdy_b set_sent].
+    rewrite syns_app, syns_one, syn_cid_set_parked, !cnt_app. lia. }
   specialize (H Hx). lia.
 Qed.
 
@@ -137,7 +174,7 @@ Proof.
   specialize (H Hx). lia.
 Qed.
 
-Lemma cnt_syn_seg c c' sd p : cnt c (syn_cid {| m_cid := c'; m_body := WSeg sd p |}) = 0.
+Lemma cnt_syn_seg c c' sd p pk : cnt c (syn_cid {| m_cid := c'; m_body := WSeg sd p; m_parked := pk |}) = 0.
 Proof. reflexivity. Qed.
 
 Lemma tokc_flush c w c' : tokc c (flush w c') <= tokc c w.
@@ -249,30 +286,6 @@ Qed.
 
 (* ---- network events ------------------------------------------------------------------------------ *)
 
-Lemma split_sent_cnt c ks : forall l i m keep,
-  split_sent i ks l = (m, keep) -> cnt c (syns keep) + cnt c (syns m) = cnt c (syns l).
-Proof.
-  induction l as [|x l IH]; intros i m keep H; cbn in H.
-  - injection H as <- <-. reflexivity.
-  - destruct (split_sent (S i) ks l) as [m' k'] eqn:E. specialize (IH _ _ _ E).
-    destruct (existsb _ ks); injection H as <- <-; rewrite !syns_cons, !cnt_app; lia.
-Qed.
-
-Lemma two_filters_cnt c (fa fb : wmsg -> bool) m :
-  cnt c (syns (filter fa m)) + cnt c (syns (filter (fun x => negb (fa x) && fb x) m)) <= cnt c (syns m).
-Proof.
-  induction m as [|x m IH]; cbn [filter]; [rewrite syns_nil; change (cnt c []) with 0; lia|].
-  destruct (fa x); cbn [negb andb]; [|destruct (fb x)]; rewrite ?syns_cons, ?cnt_app; lia.
-Qed.
-
-Lemma mature_link_le c w l ks : cnt c (link_toks (mature_link w l ks)) <= cnt c (link_toks l).
-Proof.
-  unfold mature_link. destruct (split_sent 0 ks (l_sent l)) as [m keep] eqn:E.
-  pose proof (split_sent_cnt c ks _ _ _ _ E) as H1.
-  pose proof (two_filters_cnt c (to_host w (l_a l)) (to_host w (l_b l)) m) as H2.
-  unfold link_toks. cbn [l_sent l_rdy_a l_rdy_b set_rdys set_sent]. rewrite !syns_app, !cnt_app. lia.
-Qed.
-
 Lemma tokc_set_links_map c w g :
   (forall l, cnt c (link_toks (g l)) <= cnt c (link_toks l)) ->
   tokc c (set_links w (map g (w_links w))) <= tokc c w.
@@ -281,31 +294,46 @@ Proof.
   pose proof (sumn_map_le (fun l => cnt c (link_toks l)) g (w_links w) H). lia.
 Qed.
 
-Lemma mature_tok w a b ks : tok_inv w [] -> tok_inv (do_mature w a b ks) [].
+Lemma on_pair_tok w a b f :
+  (forall c l, cnt c (link_toks (f l)) <= cnt c (link_toks l)) -> tok_inv w [] -> tok_inv (on_pair w a b f) [].
 Proof.
-  intros H. eapply tok_inv_mono; [exact H|reflexivity|]. intros c. cbn [cnt]. unfold do_mature.
-  pose proof (tokc_set_links_map c w (fun l => if on_link l a b then mature_link w l ks else l)) as G.
-  assert (forall l, cnt c (link_toks (if on_link l a b then mature_link w l ks else l)) <= cnt c (link_toks l)).
-  { intros l. destruct (on_link l a b); [apply mature_link_le|lia]. }
+  intros Hf H. eapply tok_inv_mono; [exact H|reflexivity|]. intros c. unfold on_pair.
+  pose proof (tokc_set_links_map c w (fun l => if on_link l a b then f l else l)) as G.
+  assert (forall l, cnt c (link_toks (if on_link l a b then f l else l)) <= cnt c (link_toks l))
+    by (intros l; destruct (on_link l a b); [apply Hf|lia]).
   specialize (G H0). lia.
 Qed.
 
-Lemma mature_all_tok w : tok_inv w [] -> tok_inv (do_mature_all w) [].
+Lemma mature_tok w a b ks : tok_inv w [] -> tok_inv (do_mature w a b ks) [].
 Proof.
-  intros H. eapply tok_inv_mono; [exact H|reflexivity|]. intros c. unfold do_mature_all.
-  pose proof (tokc_set_links_map c w (fun l => mature_link w l (seq 0 (length (l_sent l))))) as G.
-  assert (forall l, cnt c (link_toks (mature_link w l (seq 0 (length (l_sent l))))) <= cnt c (link_toks l))
-    by (intros l; apply mature_link_le).
-  specialize (G H0). lia.
+  apply on_pair_tok. intros c l. unfold link_toks. cbn [l_sent l_rdy_a l_rdy_b set_sent]. rewrite syns_unpark_at. lia.
+Qed.
+
+Lemma hold_tok w a b : tok_inv w [] -> tok_inv (do_hold w a b) [].
+Proof.
+  apply on_pair_tok. intros c l. unfold link_toks. cbn [l_sent l_rdy_a l_rdy_b set_sent set_helds set_cuts].
+  rewrite syns_map_parked. lia.
+Qed.
+
+Lemma release_tok w a b : tok_inv w [] -> tok_inv (do_release w a b) [].
+Proof.
+  apply on_pair_tok. intros c l. unfold link_toks. cbn [l_sent l_rdy_a l_rdy_b set_sent set_helds set_cuts].
+  rewrite syns_map_parked. lia.
 Qed.
 
 Lemma repair_tok w a b : tok_inv w [] -> tok_inv (do_repair w a b) [].
+Proof. apply on_pair_tok. intros c l. unfold link_toks. cbn [l_sent l_rdy_a l_rdy_b set_helds set_cuts]. lia. Qed.
+
+Lemma repair_one_tok w a b : tok_inv w [] -> tok_inv (do_repair_one w a b) [].
 Proof.
-  intros H. eapply tok_inv_mono; [exact H|reflexivity|]. intros c. unfold do_repair.
-  pose proof (tokc_set_links_map c w (fun l => if on_link l a b then set_cuts l false false else l)) as G.
-  assert (forall l, cnt c (link_toks (if on_link l a b then set_cuts l false false else l)) <= cnt c (link_toks l))
-    by (intros l; destruct (on_link l a b); unfold link_toks; cbn [l_sent l_rdy_a l_rdy_b set_cuts]; lia).
-  specialize (G H0). lia.
+  apply on_pair_tok. intros c l. destruct (N.eqb a (l_a l)); unfold link_toks;
+    cbn [l_sent l_rdy_a l_rdy_b set_helds set_cuts]; lia.
+Qed.
+
+Lemma tick_tok w : tok_inv w [] -> tok_inv (do_tick w) [].
+Proof.
+  intros H. eapply tok_inv_mono; [exact H|reflexivity|]. intros c. unfold do_tick.
+  pose proof (tokc_set_links_map c w (flow_link w) (fun l => flow_link_le c w l)). lia.
 Qed.
 
 Lemma fold_syn_gone_tok (l : list wmsg) : forall w c, tokc c (fold_left syn_gone l w) = tokc c w.
@@ -325,9 +353,9 @@ Proof.
     match goal with |- _ + tokc c (set_links w (map ?g _)) <= _ => pose proof (tokc_set_links_map c w g) as G end.
     match type of G with (?A -> _) => assert (Hx : A) end.
     { intros l. destruct (on_link l a b); [|lia]. destruct ow.
-      - unfold link_toks. destruct (N.eqb a (l_a l)); cbn [l_sent l_rdy_a l_rdy_b set_sent set_cuts];
+      - unfold link_toks. destruct (N.eqb a (l_a l)); cbn [l_sent l_rdy_a l_rdy_b set_sent set_cuts set_helds];
           rewrite !cnt_app; pose proof (cnt_syns_filter c (fun m => negb (from_host w a m)) (l_sent l)); lia.
-      - unfold link_toks. cbn [l_sent l_rdy_a l_rdy_b set_sent set_cuts]. rewrite !cnt_app, syns_nil. change (cnt c []) with 0. lia. }
+      - unfold link_toks. cbn [l_sent l_rdy_a l_rdy_b set_sent set_cuts set_helds]. rewrite !cnt_app, syns_nil. change (cnt c []) with 0. lia. }
     specialize (G Hx). lia.
 Qed.
 
@@ -595,7 +623,10 @@ Proof.
   - now apply drop_listener_tok.
   - now apply stream_op_tok.
   - now apply mature_tok.
-  - now apply mature_all_tok.
+  - now apply tick_tok.
+  - now apply hold_tok.
+  - now apply release_tok.
+  - now apply repair_one_tok.
   - destruct (drain_links_inv (length (w_links w)) w h H Ht) as [_ D]. unfold panic_res.
     destruct (drain_links w h (length (w_links w))) as [w1 p]. cbn [fst snd] in *. destruct p; exact D.
   - now apply partition_tok.
@@ -726,6 +757,9 @@ Proof.
     destruct (get_conn w c) as [k|]; [|reflexivity].
     match goal with |- context [if ?b then _ else _] => destruct b end; [|reflexivity].
     destruct (S.step (k_sys k) e) as [s' r]. cbn [fst]. rewrite (f_acc _ _ (frame_flush _ _)). reflexivity.
+  - reflexivity.
+  - reflexivity.
+  - reflexivity.
   - reflexivity.
   - reflexivity.
   - unfold panic_res. pose proof (acc_drain_links (length (w_links w)) w h) as D.
